@@ -34,6 +34,7 @@ RULE = (
     "signature (+ 'diff' when the differential ran). A quarter of the "
     "scenarios also call retarget_symbol_uses(code label, code label) on "
     "the same context (one at a time: a last context of its own)."
+    " 10% of the batch runs have a twin module (same names) in the IR: the IR-wide caches must answer for the rewritten module only and leave the twin as it was."
 )
 ASSUMPTIONS = [
     "block-ordering ground truth: (interval start address, block offset), ties among zero-sized blocks not judged",
@@ -70,6 +71,10 @@ def gen_case(rng, tier, index):
         b = rng.choice([x for x in g.callable_labels if x != a] or
                        [x for x in g.code_labels if x != a])
         g.case["retargets"] = [[a, b]]
+    if random.Random(f"c09-bystander:{index}").random() < 0.1:
+        # a twin module in the same IR during the batch run: the caches are
+        # IR-wide (ir.cfg), the answers they give are about one module
+        g.case["bystander"] = "twin"
     return g.case
 
 
@@ -461,6 +466,14 @@ def run_case(case):
     finally:
         rw._verif.unregister(mon)
         mon.uninstall()
+    ch = rewrite.bystander_changes(r)
+    if ch is not None:
+        ctr["bystander_modules_compared"] = 1
+        for f in ch:
+            viol.append({"key": "bystander-module-changed:" + (
+                "aux-table" if f.startswith("aux:") else f),
+                "msg": f"facet {f} of the module the batch rewrite was not "
+                       "about differs from before the rewrite"})
     for k, v in mon.ctr.items():
         ctr[k] = v
     for k, msg in mon.viol:
